@@ -1,7 +1,380 @@
+// C36, part "finalize": the real Chain.finalizeRound, the real FinalizedBlockWorker,
+// finalizeBlockProcess and finalizeBlock on a real chain with a real genesis (lib/world), driven
+// round by round over every small block tree. Runs in worker subprocesses (one real chain per
+// process; a panic or hang must only take down a worker).
+//
+// Scenario = block tree (<= 2 blocks per round, R rounds, every block a real empty block on top of
+// its parent's real state) x which blocks their round object lists as notarized (all; all but one)
+// x schedule of finalizeRound calls (rounds 1..R+3 ascending: each once / each twice / one
+// skipped) x configured "LFB ticket ahead" (5 as deployed, 2 to reach the back-walk cap).
+//
+// Oracle (from the statement): every block handed to BlockStateHandler.UpdateFinalizedBlock (i.e.
+// every newly finalized block) must descend from the latest finalized block in force at that
+// moment, and must be the reference choice or one of its ancestors (the reference choice being
+// the most recent common ancestor of the notarized blocks of the latest round that has any above
+// the finalized round). The documented recovery branch (LFB moved back to a common ancestor
+// without finalizing anything) is recorded, must target an ancestor of the old LFB, and is not
+// counted as a newly finalized block.
 package main
 
-import "verif/lib/ev"
+import (
+	"bufio"
+	"context"
+	"encoding/json"
+	"fmt"
+	"os"
+	"os/exec"
+	"sort"
+	"strconv"
+	"strings"
+	"sync"
+	"time"
 
-func c36Finalize(run *ev.Run) {}
+	"0chain.net/chaincore/block"
+	"0chain.net/chaincore/chain"
+	"0chain.net/chaincore/round"
+	"0chain.net/core/common"
+	"0chain.net/core/datastore"
 
-func c36FinalizeWorker() {}
+	"verif/lib/ev"
+	"verif/lib/world"
+)
+
+type c36FinResult struct {
+	Scenarios  int64             `json:"scenarios"`
+	Calls      int64             `json:"calls"`
+	Finalized  int64             `json:"finalized"`
+	Rollbacks  int64             `json:"rollbacks"`
+	Outcomes   []string          `json:"outcomes"`
+	Violations []c36FinViolation `json:"violations"`
+	Samples    []map[string]any  `json:"samples"`
+	Info       map[string]any    `json:"info"`
+}
+
+type c36FinViolation struct {
+	Order  int            `json:"order"`
+	Key    string         `json:"key"`
+	What   string         `json:"what"`
+	Replay map[string]any `json:"replay"`
+}
+
+// c36Finalize is the parent side: spawn the workers, merge their reports.
+func c36Finalize(run *ev.Run) {
+	bin := os.Getenv("VERIF_BIN")
+	if bin == "" {
+		var err error
+		if bin, err = os.Executable(); err != nil {
+			ev.Fatal("cannot find own binary: %v", err)
+		}
+	}
+	R := run.Pick(5, 6)
+	shards := run.Pick(6, 7)
+	aheads := []int{5, 2}
+	run.Bounds["finalize.rounds"] = R
+	run.Bounds["finalize.trees"] = len(c36Trees(R))
+	run.Bounds["finalize.round_lists"] = "all blocks listed as notarized; each single block missing from its round's list"
+	run.Bounds["finalize.schedules"] = fmt.Sprintf("finalizeRound(1..%d) ascending: each once; each twice; one round skipped (for the full lists)", R+3)
+	run.Bounds["finalize.lfb_ticket_ahead"] = aheads
+	type job struct{ ahead, shard int }
+	var jobs []job
+	for _, a := range aheads {
+		for s := 0; s < shards; s++ {
+			jobs = append(jobs, job{a, s})
+		}
+	}
+	results := make([]*c36FinResult, len(jobs))
+	errs := make([]error, len(jobs))
+	var wg sync.WaitGroup
+	for i, j := range jobs {
+		wg.Add(1)
+		go func(i int, j job) {
+			defer wg.Done()
+			ctx, cancel := context.WithTimeout(context.Background(), time.Duration(run.Pick(300, 2400))*time.Second)
+			defer cancel()
+			cmd := exec.CommandContext(ctx, bin, "c36-finalize-worker", strconv.Itoa(R), strconv.Itoa(j.ahead), strconv.Itoa(j.shard), strconv.Itoa(shards))
+			cmd.Stderr = os.Stderr
+			out, err := cmd.Output()
+			if err != nil {
+				errs[i] = fmt.Errorf("worker ahead=%d shard=%d: %v", j.ahead, j.shard, err)
+				return
+			}
+			// the report is the last line starting with RESULT
+			sc := bufio.NewScanner(strings.NewReader(string(out)))
+			sc.Buffer(make([]byte, 1<<20), 1<<30)
+			for sc.Scan() {
+				if l := sc.Text(); strings.HasPrefix(l, "RESULT ") {
+					r := &c36FinResult{}
+					if e := json.Unmarshal([]byte(l[7:]), r); e != nil {
+						errs[i] = e
+						return
+					}
+					results[i] = r
+				}
+			}
+			if results[i] == nil {
+				errs[i] = fmt.Errorf("worker ahead=%d shard=%d printed no result", j.ahead, j.shard)
+			}
+		}(i, j)
+	}
+	wg.Wait()
+	for _, e := range errs {
+		if e != nil {
+			ev.Fatal("C36 finalize: %v", e)
+		}
+	}
+	var viols []c36FinViolation
+	var finalized, rollbacks, scenarios int64
+	for i, r := range results {
+		run.Add(r.Scenarios, r.Calls, r.Calls)
+		scenarios += r.Scenarios
+		finalized += r.Finalized
+		rollbacks += r.Rollbacks
+		for _, o := range r.Outcomes {
+			run.Outcome(fmt.Sprintf("finalize|a%d|%s", jobs[i].ahead, o))
+		}
+		viols = append(viols, r.Violations...)
+		if jobs[i].shard == 0 {
+			for _, s := range r.Samples {
+				run.Sample(s)
+			}
+			for k, v := range r.Info {
+				run.Extra[fmt.Sprintf("finalize.a%d.%s", jobs[i].ahead, k)] = v
+			}
+		}
+	}
+	sort.SliceStable(viols, func(i, j int) bool { return viols[i].Order < viols[j].Order })
+	for _, v := range viols {
+		run.Violation(v.Key, v.What, v.Replay)
+	}
+	run.Extra["finalize.scenarios"] = scenarios
+	run.Extra["finalize.blocks_finalized"] = finalized
+	run.Extra["finalize.rollbacks_observed"] = rollbacks
+	if finalized == 0 {
+		ev.Fatal("C36 finalize: no block was ever finalized (vacuous)")
+	}
+}
+
+// ---------------------------------------------------------------------------------------------
+// worker
+
+type c36BSH struct {
+	mu  sync.Mutex
+	seq []*block.Block
+	lfb []*block.Block // LFB in force when the block was handed over
+	c   *chain.Chain
+}
+
+func (h *c36BSH) SaveMagicBlock() chain.MagicBlockSaveFunc { return nil }
+func (h *c36BSH) UpdatePendingBlock(ctx context.Context, b *block.Block, txns []datastore.Entity) {
+}
+func (h *c36BSH) UpdateFinalizedBlock(ctx context.Context, b *block.Block) error {
+	h.mu.Lock()
+	h.seq = append(h.seq, b)
+	h.lfb = append(h.lfb, h.c.GetLatestFinalizedBlock())
+	h.mu.Unlock()
+	return nil
+}
+func (h *c36BSH) take() (seq, lfb []*block.Block) {
+	h.mu.Lock()
+	seq, lfb = h.seq, h.lfb
+	h.seq, h.lfb = nil, nil
+	h.mu.Unlock()
+	return
+}
+
+type c36VC struct{}
+
+func (c36VC) ViewChange(ctx context.Context, lfb *block.Block) error { return nil }
+
+func c36FinalizeWorker() {
+	if len(os.Args) < 6 {
+		ev.Fatal("usage: structs c36-finalize-worker R ahead shard shards")
+	}
+	R, _ := strconv.Atoi(os.Args[2])
+	ahead, _ := strconv.Atoi(os.Args[3])
+	shard, _ := strconv.Atoi(os.Args[4])
+	shards, _ := strconv.Atoi(os.Args[5])
+
+	w := world.New(world.Options{Viper: map[string]any{
+		"server_chain.lfb_ticket.ahead":           ahead,
+		"server_chain.block.finalization.timeout": "30m",
+	}})
+	c := w.Chain
+	c.SetViewChanger(c36VC{})
+	bsh := &c36BSH{c: c}
+	go c.FinalizedBlockWorker(w.Ctx, bsh)
+	res := &c36FinResult{Info: map[string]any{
+		"block_finalization_timeout": c.ChainConfig.BlockFinalizationTimeout().String(),
+		"generators":                 c.GetGeneratorsNum(),
+	}}
+	outcomes := map[string]struct{}{}
+
+	trees := c36Trees(R)
+	maxCall := R + 3
+	for ti := shard; ti < len(trees); ti += shards {
+		t := trees[ti]
+		nb := len(t.Parent) - 1
+		if nb == 0 {
+			continue
+		}
+		full := 1<<nb - 1
+		masks := []int{full}
+		for i := 0; i < nb; i++ {
+			masks = append(masks, full&^(1<<i))
+		}
+		for mi, mask := range masks {
+			// schedules
+			var scheds [][]int
+			once := make([]int, 0, maxCall)
+			twice := make([]int, 0, 2*maxCall)
+			for r := 1; r <= maxCall; r++ {
+				once = append(once, r)
+				twice = append(twice, r, r)
+			}
+			scheds = append(scheds, once, twice)
+			if mi == 0 {
+				for skip := 1; skip <= maxCall; skip++ {
+					var s []int
+					for r := 1; r <= maxCall; r++ {
+						if r != skip {
+							s = append(s, r)
+						}
+					}
+					scheds = append(scheds, s)
+				}
+			}
+			for si, sched := range scheds {
+				res.Scenarios++
+				c36RunScenario(w, bsh, t, ti, mask, sched, maxCall, ahead, res, outcomes)
+				if ti%97 == 0 && mi == 0 && si == 0 && len(res.Samples) < 3 {
+					res.Samples = append(res.Samples, map[string]any{"part": "finalize", "tree": t.String(), "notarized_lists": c36MaskNames(mask, nb), "schedule": sched, "ahead": ahead})
+				}
+			}
+		}
+	}
+	for k := range outcomes {
+		res.Outcomes = append(res.Outcomes, k)
+	}
+	sort.Strings(res.Outcomes)
+	data, _ := json.Marshal(res)
+	fmt.Println("RESULT " + string(data))
+	os.Exit(0)
+}
+
+func c36RunScenario(w *world.World, bsh *c36BSH, t c36Tree, ti, mask int, sched []int, maxCall, ahead int, res *c36FinResult, outcomes map[string]struct{}) {
+	c := w.Chain
+	ctx := w.Ctx
+	// reset the chain to "only genesis is finalized"
+	c.SetLatestFinalizedBlock(w.Genesis)
+	c.LatestDeterministicBlock = w.Genesis
+	bsh.take()
+
+	// real blocks
+	nodes := make([]*world.Node, len(t.Parent))
+	nodes[0] = w.GenesisNode()
+	idx := map[*block.Block]int{w.Genesis: 0}
+	for i := 1; i < len(t.Parent); i++ {
+		p := nodes[t.Parent[i]]
+		n := w.Open(p, int64(t.Round[i]), w.Genesis.CreationDate+common.Timestamp(10*t.Round[i]), w.Miners[t.Rank[i]], int64(1000+t.Round[i]), fmt.Sprintf("t%d-b%d", ti, i))
+		w.CloseBlock(n)
+		n.Block.RoundRank = t.Rank[i]
+		n.Block.SetBlockNotarized()
+		nodes[i] = n
+		idx[n.Block] = i
+		c.SetBlock(n.Block)
+	}
+	// real rounds 1..maxCall
+	rounds := make([]*round.Round, maxCall+1)
+	for k := 1; k <= maxCall; k++ {
+		if old := c.GetRound(int64(k)); old != nil {
+			c.VerifStructsDeleteRound(ctx, old)
+		}
+		r := round.NewRound(int64(k))
+		r.SetRandomSeed(int64(1000+k), c.GetMiners(int64(k)).Size())
+		for i := 1; i < len(t.Parent); i++ {
+			if t.Round[i] == k && mask&(1<<(i-1)) != 0 {
+				r.AddNotarizedBlock(nodes[i].Block)
+			}
+		}
+		rounds[k] = r
+		c.AddRound(r)
+	}
+	defer func() {
+		for i := 1; i < len(nodes); i++ {
+			c.DeleteBlock(ctx, nodes[i].Block)
+		}
+	}()
+
+	name := func(b *block.Block) string {
+		if b == nil {
+			return "nil"
+		}
+		if i, ok := idx[b]; ok {
+			return fmt.Sprintf("b%d", i)
+		}
+		return "?" + b.Hash[:6]
+	}
+	isAncOrEq := func(a, b int) bool { return a == b || c36IsAncestor(t, a, b) }
+	replay := map[string]any{"parents": t.Parent, "rounds": t.Round, "listed_mask": mask, "schedule": sched, "lfb_ticket_ahead": ahead}
+	var trace []string
+	viol := func(key, what string) {
+		res.Violations = append(res.Violations, c36FinViolation{Order: ti*1000 + len(sched), Key: "C36:finalizeRound:" + key,
+			What: fmt.Sprintf("tree %v lists %s schedule %v ahead=%d: %s; trace: %s", t, c36MaskNames(mask, len(t.Parent)-1), sched, ahead, what, strings.Join(trace, " ")), Replay: replay})
+	}
+	cur := 0 // tree index of the LFB the harness believes in force
+	for _, r := range sched {
+		plfb := c.GetLatestFinalizedBlock()
+		pi, known := idx[plfb]
+		if !known {
+			viol("unknown-lfb", "latest finalized block is not a block of the tree: "+name(plfb))
+			return
+		}
+		want, _ := c36Reference(t, mask, r, t.Round[pi])
+		c.VerifStructsFinalizeRound(ctx, rounds[r])
+		res.Calls++
+		seq, lfbs := bsh.take()
+		step := fmt.Sprintf("r%d:", r)
+		for k, fb := range seq {
+			fi, ok := idx[fb]
+			step += name(fb)
+			res.Finalized++
+			if !ok {
+				viol("finalized-unknown-block", "finalized a block that is not in the tree")
+				return
+			}
+			li, ok2 := idx[lfbs[k]]
+			if !ok2 || li != cur {
+				viol("lfb-not-the-previously-finalized-block", fmt.Sprintf("LFB in force is %s, the previously finalized block is b%d", name(lfbs[k]), cur))
+			}
+			if !c36IsAncestor(t, cur, fi) {
+				viol("finalized-block-does-not-descend-from-previous", fmt.Sprintf("newly finalized %s does not descend from the previously finalized b%d", name(fb), cur))
+			}
+			if want < 0 || !isAncOrEq(fi, want) {
+				viol("finalized-block-not-a-common-ancestor", fmt.Sprintf("finalizeRound(%d) finalized %s; reference choice %s", r, name(fb), c36Name(want)))
+			}
+			cur = fi
+		}
+		nlfb := c.GetLatestFinalizedBlock()
+		ni, ok := idx[nlfb]
+		if !ok {
+			viol("unknown-lfb", "latest finalized block is not a block of the tree: "+name(nlfb))
+			return
+		}
+		if ni != cur {
+			if len(seq) == 0 && c36IsAncestor(t, ni, cur) {
+				// documented recovery: LFB moved back to a common ancestor
+				res.Rollbacks++
+				step += "ROLLBACK->" + name(nlfb)
+				if want < 0 || !isAncOrEq(ni, want) {
+					viol("rollback-target-not-a-common-ancestor", fmt.Sprintf("LFB moved back to %s which is not an ancestor of the reference choice %s", name(nlfb), c36Name(want)))
+				}
+				cur = ni
+			} else {
+				viol("lfb-differs-from-last-finalized-block", fmt.Sprintf("after finalizeRound(%d) LFB is %s, last finalized block is b%d", r, name(nlfb), cur))
+				cur = ni
+			}
+		}
+		trace = append(trace, step)
+	}
+	outcomes[fmt.Sprintf("%d|%d|%s", ti, mask, strings.Join(trace, " "))] = struct{}{}
+}
